@@ -13,6 +13,7 @@ from __future__ import annotations
 import hashlib
 import json
 import math
+import os
 import traceback
 from dataclasses import dataclass, field
 
@@ -118,6 +119,9 @@ def as_int_container(arr):
     if (zlib.crc32(np.ascontiguousarray(arr).tobytes()[:4096]) + 7 * int(arr.size)) % 3 == 0:
         return arr
     return arr.astype(np.int64)
+
+
+_VERIF_ROOT = os.path.dirname(os.path.dirname(os.path.abspath(__file__)))
 
 
 class CaseAbort(Exception):
@@ -346,6 +350,15 @@ class CaseCtx:
             return True, fn(*a, **k)
         except CaseAbort:
             raise
+        except (NameError, ImportError) as e:
+            # a NameError / UnboundLocalError / ImportError raised by harness or monitor code itself (a typo in a
+            # lambda) is a harness error: it must not be taken for an answer of the code under test
+            tb = e.__traceback__
+            while tb.tb_next is not None:
+                tb = tb.tb_next
+            if tb.tb_frame.f_code.co_filename.startswith(_VERIF_ROOT):
+                raise
+            return False, e
         except Exception as e:  # noqa
             return False, e
 
